@@ -462,7 +462,9 @@ impl<'a> UserModel<'a> {
             }
         }
         self.push_diff_list(diff_list);
-        // select the pasted area
+        // select the pasted area: the active cell moves to its first cell, so that
+        // the paste, which is already done, cannot fail on the selection
+        self.set_selected_cell(selected_row, selected_column)?;
         self.set_selected_range(selected_row, selected_column, max_row, max_column)?;
         self.evaluate_if_not_paused();
         Ok(())
@@ -541,7 +543,9 @@ impl<'a> UserModel<'a> {
             row += 1;
         }
         self.push_diff_list(diff_list);
-        // select the pasted area
+        // select the pasted area: the active cell moves to its first cell, so that
+        // the paste, which is already done, cannot fail on the selection
+        self.set_selected_cell(area.row, area.column)?;
         self.set_selected_range(area.row, area.column, row - 1, last_column)?;
         self.evaluate_if_not_paused();
         Ok(())
